@@ -616,7 +616,8 @@ HOST_V4 = ['0.0.0.0', '127.0.0.1', '10.0.0.1', '255.255.255.255', '192.168.1.254
 HOST_V6 = ['::', '::1', '2001:db8::1', '1:2:3:4:5:6:7:8', '2001:db8:85a3::8a2e:370:7334', 'fe80::1',
            '::ffff:1.2.3.4', '2001:DB8::A', 'ffff:ffff:ffff:ffff:ffff:ffff:ffff:ffff',
            '2001:0db8:0000:0000:0000:0000:0000:0001', '1::', '::8', '64:ff9b::192.0.2.33', '1234::1234']
-SCOPES = ['eth0', '1', 'lo', 'enp0s31f6', 'br-1234567890a', 'a' * 15, 'vlan.100', 'wlan0_1', '0', 'Eth0']
+SCOPES = ['eth0', '1', 'lo', 'enp0s31f6', 'br-1234567890a', 'a' * 15, 'vlan.100', 'wlan0_1', '0', 'Eth0',
+          '25', '250', '2501', '25eth0', '2525', '3A', '2F']
 SCOPE_ALPHABET = 'abcdefghijklmnopqrstuvwxyzABCDEFGHIJKLMNOPQRSTUVWXYZ0123456789._-'
 FAMILY_REPRESENTATIVES = [('server01.example.org', 'name'), ('192.168.1.254', 'ipv4'),
                           ('2001:db8:85a3::8a2e:370:7334', 'ipv6'), ('fe80::1%eth0', 'ipv6-scoped')]
